@@ -33,6 +33,12 @@ var harmlessComments = []string{
 	"; a comment", ";", ";; mov 0, 1", "; x equ 5 , # $ @", ";\tfor 3", "; end", "; 1+2*(3)",
 }
 
+// trailingRemarks stand behind something else on a line: they are remarks, whatever they
+// look like (a metadata or ;assert comment is a comment line)
+var trailingRemarks = []string{
+	";name of this line", ";author unknown", ";strategy none here", ";assert 0", ";assert 1==2", "; a comment", ";",
+}
+
 var renamePool = []string{
 	"alpha", "b2", "_x", "Loop", "LOOP", "loop", "q", "zz9", "imp_1", "step", "ptr", "Bomb", "k", "t0", "gate", "_",
 	"aa", "ab_", "x1", "y", "datA", "movx", "jmpz", "e", "forr", "orgx", "endd", "equu", "CORE", "size", "n", "m",
@@ -177,6 +183,9 @@ func (s *Style) labels(ls []string, rn map[string]string, allowColon, allowOwnLi
 		}
 	}
 	if len(ls) > 0 && allowOwnLine && s.pick(5) == 1 {
+		if s.pick(3) == 1 {
+			sb.WriteString(trailingRemarks[s.pick(len(trailingRemarks))])
+		}
 		sb.WriteString("\n")
 		if s.pick(4) == 1 {
 			sb.WriteString("\n")
@@ -194,10 +203,11 @@ type Features struct {
 	CaseVar    bool
 	Indent     bool
 	ForColonOK bool
+	AfterEnd   bool // lines that do not belong to the program after the END line
 	ForOwnLine bool // block labels and the count variable may stand on lines of their own before the FOR line
 }
 
-var AllFeatures = Features{Comments: true, Blank: true, Colons: true, OwnLine: true, CaseVar: true, Indent: true}
+var AllFeatures = Features{Comments: true, Blank: true, Colons: true, OwnLine: true, CaseVar: true, Indent: true, AfterEnd: true}
 
 // Render turns an abstract program into source text.
 func Render(p Program, st Style, f Features) string {
@@ -224,7 +234,11 @@ func Render(p Program, st Style, f Features) string {
 			t = s.ws(false)
 		}
 		if f.Comments && s.pick(6) == 1 {
-			t += harmlessComments[s.pick(len(harmlessComments))]
+			if s.pick(3) == 1 {
+				t += trailingRemarks[s.pick(len(trailingRemarks))]
+			} else {
+				t += harmlessComments[s.pick(len(harmlessComments))]
+			}
 		}
 		return t
 	}
@@ -262,9 +276,9 @@ func Render(p Program, st Style, f Features) string {
 		case KEqu:
 			emit(indent() + s.labels(it.Labels, rn, false, false) + caseOf("equ", ck()) + s.ws(true) + s.expr(it.Expr, rn) + trail())
 		case KOrg:
-			emit(indent() + s.labels(it.Labels, rn, false, false) + caseOf("org", ck()) + s.ws(true) + s.expr(it.Expr, rn) + trail())
+			emit(indent() + s.labels(it.Labels, rn, f.Colons, f.OwnLine) + caseOf("org", ck()) + s.ws(true) + s.expr(it.Expr, rn) + trail())
 		case KEnd:
-			l := indent() + s.labels(it.Labels, rn, false, false) + caseOf("end", ck())
+			l := indent() + s.labels(it.Labels, rn, f.Colons, f.OwnLine) + caseOf("end", ck())
 			if len(it.Expr) > 0 {
 				l += s.ws(true) + s.expr(it.Expr, rn)
 			}
@@ -348,6 +362,19 @@ func Render(p Program, st Style, f Features) string {
 	if end != nil {
 		filler()
 		renderItem(*end)
+		if f.AfterEnd && s.pick(3) == 1 {
+			// nothing after the END line belongs to the program
+			junk := []string{"mov 0, 1", "; a comment", ";name not this one", ";assert 0", "jmp nowhere", "for 3", "dat 0", "rof", "x y z", "dat 1 = | & 2", "end 5", "org 9"}
+			for _, it := range p.Items {
+				if it.Kind == KEqu && len(it.Labels) > 0 {
+					junk = append(junk, rn[it.Labels[0]]+" equ 77") // an older version of a definition
+					break
+				}
+			}
+			for n := 1 + s.pick(4); n > 0; n-- {
+				emit(junk[s.pick(len(junk))])
+			}
+		}
 	}
 	out := strings.Join(lines, "\n")
 	if !s.NoFinalN {
